@@ -151,6 +151,10 @@ func (w *world) script(s scen, payer common.Address) []byte {
 		code = must(ledgerkit.OngApproveCode(payer, w.other.Address, s.arg))
 	case "approvethrow":
 		code = append(must(ledgerkit.OngApproveCode(payer, w.other.Address, s.arg)), 0xf0)
+	case "tfromdel": // ONG transferFrom(other <- payer, arg) by `other` with an allowance of exactly arg (set up before) and arg above
+		// the payer's balance: the allowance is consumed (its key is DELETED in the cache), then the debit fails —
+		// a failed execution whose only cache entry is a deletion
+		code = must(ledgerkit.NativeCode(nutils.OngContractAddress, "transferFrom", []interface{}{ont.NewTransferFromState(w.other.Address, payer, w.other.Address, s.arg)}))
 	case "steal": // transfer out of the bookkeeper's account, who does not sign
 		code = must(ledgerkit.OngTransferCode(w.book.Address, w.other.Address, s.arg))
 	case "ontxfer": // ONT transfer (payer has none): native error
@@ -188,11 +192,24 @@ func (w *world) prepare(s scen) *prepared {
 		}
 		fund = append(fund, tx)
 	}
+	signers := []*account.Account{p.signer}
+	if s.kind == "tfromdel" {
+		ac, err := ledgerkit.OngApproveCode(p.payer.Address, w.other.Address, s.arg)
+		if err != nil {
+			panic(err)
+		}
+		atx, err := ledgerkit.InvokeTx(ac, 0, 30000, w.nextNonce(), nil, p.payer)
+		if err != nil {
+			panic(err)
+		}
+		fund = append(fund, atx)
+		signers = append(signers, w.other)
+	}
 	if len(fund) > 0 {
 		w.mustAdd(fund)
 	}
 	p.code = w.script(s, p.payer.Address)
-	tx, err := ledgerkit.InvokeTx(p.code, s.gp, s.gl, w.nextNonce(), &p.payer.Address, p.signer)
+	tx, err := ledgerkit.InvokeTx(p.code, s.gp, s.gl, w.nextNonce(), &p.payer.Address, signers...)
 	if err != nil {
 		panic(err)
 	}
@@ -295,7 +312,7 @@ func genScen(r *hx.Rand) scen {
 		s.gp = uint64(1 + r.Intn(3000))
 	}
 	// script
-	kinds := []string{"ok", "nop", "throw", "loop", "badop", "xfer", "xfer", "xferthrow", "approve", "approvethrow", "steal", "ontxfer", "dpos", "throw", "loop"}
+	kinds := []string{"ok", "nop", "throw", "loop", "badop", "xfer", "xfer", "xferthrow", "approve", "approvethrow", "steal", "ontxfer", "dpos", "throw", "loop", "tfromdel"}
 	s.kind = kinds[r.Intn(len(kinds))]
 	if r.Chance(25) {
 		s.pad = []int{1000, 1030, 2040, 2100, 3500}[r.Intn(5)]
@@ -334,6 +351,11 @@ func genScen(r *hx.Rand) scen {
 	switch s.kind {
 	case "nop", "throw":
 		s.arg = uint64([]int{0, 1, 5, 1000, 19999, 20000, 20001, 25000}[r.Intn(8)])
+	case "tfromdel":
+		s.arg = s.bal + uint64(1+r.Intn(1000)) // above the balance: the debit fails after the allowance was consumed
+		if r.Chance(20) {
+			s.arg = s.bal/2 + 1 // affordable: the transfer succeeds
+		}
 	case "xfer", "xferthrow", "approve", "approvethrow", "steal", "ontxfer":
 		switch r.Intn(5) {
 		case 0:
@@ -603,7 +625,7 @@ func main() {
 	}()
 	hx.Main(hx.Prop{
 		ID:   "C05",
-		Rule: "one NeoVM/native invoke transaction per case, executed by ExecuteBlock+SubmitBlock on a real solo ledger between a preceding and a following transaction; scripts: ok, NOP runs, THROW, endless loop, bad opcode, ONG transfer/approve (with and without a trailing THROW), transfer from a non-signer, ONT transfer without funds, the system commitDpos code; code padded across the 1 KiB fee steps; gas price in {0,1,2,500,2500,random,2^59k (20000*p=0 mod 2^64), 2^63±1, 2^64-1, around 2^64/20000 and 2^64/40000}; gas limit in {0,1,19999..40001, 2^63, 2^64-1, random}; payer balance around 20000p, 40000p, limit*p, with sub-unit fractions; payer not among the signers in 6%. Non-trivial key = (script/branch, state, gas consumed, signer flag, price)",
+		Rule: "one NeoVM/native invoke transaction per case, executed by ExecuteBlock+SubmitBlock on a real solo ledger between a preceding and a following transaction; scripts: ok, NOP runs, THROW, endless loop, bad opcode, ONG transfer/approve (with and without a trailing THROW), transferFrom that consumes (deletes) its allowance and then fails on the debit, transfer from a non-signer, ONT transfer without funds, the system commitDpos code; code padded across the 1 KiB fee steps; gas price in {0,1,2,500,2500,random,2^59k (20000*p=0 mod 2^64), 2^63±1, 2^64-1, around 2^64/20000 and 2^64/40000}; gas limit in {0,1,19999..40001, 2^63, 2^64-1, random}; payer balance around 20000p, 40000p, limit*p, with sub-unit fractions; payer not among the signers in 6%. Non-trivial key = (script/branch, state, gas consumed, signer flag, price)",
 		Gen:  gen,
 		Exec: execLine,
 		N:    map[string]int{"quick": 700, "thorough": 12000},
